@@ -114,7 +114,15 @@ def rand_history(rng):
                 ln = rng.choice([0, max(0, width_r - 1), width_r, width_r, width_r, width_r + 1, width_r + 2])
                 rows.append(rand_row(rng, ln))
             kind = rng.random()
-            if ri[0] == "i" and ci[0] == "i" and kind < 0.3:
+            own = rng.random()
+            if own < 0.08 and ri[0] == "s" and ri[2] <= height:
+                # the block is made of the array's OWN row objects, at the very positions they are assigned to
+                val = ["own", ri[1], ri[2]]
+            elif own < 0.12 and ((ri[0] == "i" and ri[1] < height) or (ri[0] == "s" and ri[2] <= height)):
+                # the array itself as the block (only where the assignment cannot grow it: the value would
+                # change under the assignment's own row extension)
+                val = ["self"]
+            elif ri[0] == "i" and ci[0] == "i" and kind < 0.3:
                 val = ["str", rng.choice(TXT) if rng.random() < 0.8 else "xy"]
             elif kind < 0.15 and rows:
                 val = ["fsarray", rows]
@@ -172,7 +180,14 @@ def run(inp):
     for op in inp["ops"]:
         if op[0] == "set":
             v = op[3]
-            if v[0] == "str":
+            used = None
+            if v[0] == "own":
+                val = a[v[1]:v[2]]
+                used = [canon.canon_fs(r) for r in val]
+            elif v[0] == "self":
+                val = a
+                used = snapshot(a)
+            elif v[0] == "str":
                 val = v[1]
             elif v[0] == "fsarray":
                 val = fsarray([build_val(r) for r in v[1]])
@@ -183,7 +198,7 @@ def run(inp):
                 a[py_index(op[1]), py_index(op[2])] = val
             except Exception as e:
                 raised = canon.exn_name(e) + ": " + str(e)[:60]
-            out["steps"].append(["set", raised, snapshot(a)])
+            out["steps"].append(["set", raised, snapshot(a)] + ([used] if used is not None else []))
         elif op[0] == "get":
             out["steps"].append(["get"] + canon.outcome(lambda: a[py_index(op[1]), py_index(op[2])],
                                                         lambda rows: [canon.canon_fs(r) for r in rows]))
@@ -222,6 +237,8 @@ def to_coq(inp, out):
             v = op[3]
             if v[0] == "str":
                 cv = "(VStr %s)" % coq_str(v[1])
+            elif v[0] in ("own", "self"):
+                cv = "(VRows [%s])" % "; ".join(coq_operand(["f", r]) for r in st[3])
             else:
                 # an FSArray value iterates as its rows (FmtStrs); fsarray() of str rows makes unformatted FmtStrs
                 rows = v[1] if v[0] == "rows" else [["f", [[r[1], [0] * 8]]] if r[0] == "s" else r for r in v[1]]
@@ -274,7 +291,7 @@ def shrink(inp):
     for i in range(len(ops)):
         yield dict(inp, ops=ops[:i] + ops[i + 1:])
     for i, op in enumerate(ops):
-        if op[0] == "set" and op[3][0] != "str":
+        if op[0] == "set" and op[3][0] not in ("str", "own", "self"):
             rows = op[3][1]
             for j, r in enumerate(rows):
                 if r[0] == "f":
